@@ -284,21 +284,30 @@ Theorem c03_content_histories : forall fsdp fsh fx cf h ds,
 Proof. exact drun_shell. Qed.
 Print Assumptions c03_content_histories.
 
-(* After ANY history on the repaired tree, the SDP the group of stream s holds is that of the RTSP publisher or RTSP
-   relay pull that IS its accepted input, and none when the input is of another kind or absent: the SDP of an input
-   that was refused (a relay pull overtaken by a publisher, or stopped while connecting) or has departed is never
-   there. *)
+(* After ANY history on the repaired tree: if the group of stream s holds an SDP at all, it is that of the RTSP publisher
+   or RTSP relay pull that IS its accepted input - the SDP of an input that was refused (a relay pull overtaken by a
+   publisher, or stopped while connecting) or has departed is never there, nor any SDP when the input is of another
+   kind or absent. *)
 Theorem c03_sdp_is_of_accepted_input : forall fsh fx cf h s,
   let ds := fst (drun true fsh fx cf init_dstate h) in
-  snd (fst (dstep true fsh fx cf ds (DSdp s))) =
-  DRSdp (match get_group (cs_base (ds_shell ds)) s with Some g => sdp_source s g | None => None end).
+  snd (fst (dstep true fsh fx cf ds (DSdp s))) = DRSdp None \/
+  snd (fst (dstep true fsh fx cf ds (DSdp s))) = DRSdp (source_of (cs_base (ds_shell ds)) s).
 Proof. exact sdp_is_of_accepted_input. Qed.
 Print Assumptions c03_sdp_is_of_accepted_input.
 
-(* one step, any state and any SDP table: an event that leaves the input slots of a group alone leaves its SDP alone;
+(* "none" while an RTSP input is accepted happens only after ServerManager.Dispose (Group.Dispose ends with delIn, which
+   drops SDP and pipeline, but leaves an attached relay pull in its slot): until then the group holds exactly the SDP of
+   its accepted RTSP input *)
+Theorem c03_sdp_exact_until_dispose : forall fsh fx cf h s, forallb not_dispose h = true ->
+  let ds := fst (drun true fsh fx cf init_dstate h) in
+  snd (fst (dstep true fsh fx cf ds (DSdp s))) = DRSdp (source_of (cs_base (ds_shell ds)) s).
+Proof. exact sdp_exact_until_dispose. Qed.
+Print Assumptions c03_sdp_exact_until_dispose.
+
+(* one step, any state and any SDP table: an event other than Dispose that leaves the input slots of a group alone leaves its SDP alone;
    with the foreign-event theorem: an event whose subject is not the accepted input of s - a refused arrival, the
    end of a refused session, a relay pull that is overtaken - does not change the SDP of s *)
-Theorem c03_unchanged_slots_keep_sdp : forall st st1 ce tbl s gb ga,
+Theorem c03_unchanged_slots_keep_sdp : forall st st1 ce tbl s gb ga, is_dispose ce = false ->
   get_group st s = Some gb -> get_group st1 s = Some ga -> slots ga = slots gb ->
   lookup_sdp s (sdp_table true st st1 ce tbl) = lookup_sdp s tbl.
 Proof. exact unchanged_slots_keep_sdp. Qed.
